@@ -99,10 +99,12 @@ func (z *Decimal) Sqrt(x *Decimal) *Decimal {
 		}
 		// z <= √xx < z + ulp
 		if sq.Mul(z, z).Cmp(xx) != 0 {
-			// √xx lies strictly between z and z+ulp: z + ulp/2 rounds to prec
-			// digits exactly as √xx does, whatever the rounding mode.
+			// √xx lies strictly between z and z+ulp: z plus half a unit in its
+			// wp-th digit rounds to prec digits exactly as √xx does, whatever
+			// the rounding mode. The unit is taken from z as it is now: the
+			// correction above may have moved z across a power of ten.
 			z.prec = wp + 1
-			z.Add(z, ulp.Mul(ulp, oneHalf))
+			z.Add(z, ulp.SetMantExp(oneHalf, int(z.exp)-int(wp)))
 		}
 	}
 	z.mode = mode
